@@ -216,10 +216,16 @@ def check_source_statistics(stats, occ, src):
         k = srcref.annotated_to_key(st)
         got[k] = got.get(k, 0.0) + p
     tot = sum(got.values())
-    if abs(tot - 1) > 1e-9:
-        problems.append(f"total: input statistics sum to {tot:.12f}")
     thr = src.probability_threshold
     ref = srcref.input_statistics(occ, src.brightness, src.purity, src.indistinguishability, 0.0)
+    if thr and not any(p >= thr * (1 - 1e-9) for p in ref.values()):
+        # the threshold exceeds every input probability: nothing is left to normalise. The property's
+        # "normalised" cannot be demanded of an empty set; recorded, not judged.
+        STATS["source_threshold_removed_everything"] += 1
+        return problems if not stats else problems + [f"value: threshold {thr} exceeds every input probability "
+                                                      f"but {len(stats)} inputs were kept"]
+    if abs(tot - 1) > 1e-9:
+        problems.append(f"total: input statistics sum to {tot:.12f}")
     if thr:
         # entries within float noise of the threshold may legitimately fall either side
         sure = {k: p for k, p in ref.items() if p >= thr * (1 + 1e-9)}
@@ -247,6 +253,9 @@ def check_source_distribution(dist, u_full, n_real, occ, src):
             return problems
         kept = {k: p for k, p in stats.items() if p >= thr}
         t = sum(kept.values())
+        if not kept:
+            STATS["source_threshold_removed_everything"] += 1
+            return problems
         stats = {k: p / t for k, p in kept.items()}
     ref = srcref.output_distribution(u_full, n_real, stats)
     n_max = max((sum(sum(g) for g in k) for k in stats), default=0)
